@@ -285,7 +285,8 @@ class load(DataStreamProcessor):
                 it = self.stripper(it)
             if self.limit_rows:
                 it = self.limiter(it)
-            yield it
+            # a (descriptor, resources) pair may hold plain lists of rows
+            yield iter(it)
 
     @staticmethod
     def rename_duplicate_headers(duplicate_headers, case_sensitive=True, deduplicate_format=' (%s)'):
